@@ -9,16 +9,16 @@ import vs "github.com/emitter-io/emitter/internal/verifspec"
 // reflection codecs underneath are outside the verified code: their results are unconstrained here (any byte
 // string or an error), which is exactly the hostile-input reading.
 
-//@ verify parseV1 post=post_parseV1 props=C20,C09
+// @ verify parseV1 post=post_parseV1 props=C20,C09
 func post_parseV1(data string, res0 *V1, res1 error) bool { return res1 != nil || res0 != nil }
 
-//@ verify Parse post=post_Parse props=C20,C09
+// @ verify Parse post=post_Parse props=C20,C09
 func post_Parse(data string, res0 License, res1 error) bool { return res1 != nil || res0 != nil }
 
-//@ verify parseV2 post=post_parseV2 props=C20,C09
+// @ verify parseV2 post=post_parseV2 props=C20,C09
 func post_parseV2(data string, res0 *V2, res1 error) bool { return res1 != nil || res0 != nil }
 
-//@ verify parseV3 post=post_parseV3 props=C20,C09
+// @ verify parseV3 post=post_parseV3 props=C20,C09
 func post_parseV3(data string, res0 *V3, res1 error) bool { return res1 != nil || res0 != nil }
 
 // Parse's dispatch (C20: "a generated license parses back ..."): every String() ends in ":<version>"; Parse hands
@@ -26,16 +26,18 @@ func post_parseV3(data string, res0 *V3, res1 error) bool { return res1 != nil |
 // text without such a suffix to the version-1 parser as it is. strings.HasSuffix is assumed to be what its
 // documentation says; the three parsers are unfolded (their base64 / snappy / codec calls are recorded), and the
 // text a parser was given is read off its first call, base64's DecodeString.
-//@ assume strings.HasSuffix iface post=post_HasSuffix
+// @ assume strings.HasSuffix iface post=post_HasSuffix
 func post_HasSuffix(s, suffix string, res0 bool) bool {
 	return res0 == (len(s) >= len(suffix) && vs.Forall(0, len(suffix), func(i int) bool { return s[len(s)-len(suffix)+i] == suffix[i] }))
 }
 
 //@ assume (*encoding/base64.Encoding).DecodeString iface
 
-//@ verify Parse as=dispatch pre=pre_Parse_dispatch post=post_Parse_dispatch props=C20
+// @ verify Parse as=dispatch pre=pre_Parse_dispatch post=post_Parse_dispatch props=C20
 func pre_Parse_dispatch(data string) bool { return len(data) >= 5 }
-func specEndsWith(data string, v byte) bool { return data[len(data)-2] == ':' && data[len(data)-1] == v }
+func specEndsWith(data string, v byte) bool {
+	return data[len(data)-2] == ':' && data[len(data)-1] == v
+}
 func post_Parse_dispatch(data string, res0 License, res1 error) bool {
 	d := vs.TraceFind("DecodeString")
 	if d < 0 || vs.TraceCount("DecodeString") != 1 {
@@ -50,8 +52,8 @@ func post_Parse_dispatch(data string, res0 License, res1 error) bool {
 
 func pre_V1(l *V1) bool { return l != nil }
 
-//@ verify (*V1).Contract pre=pre_V1 post=post_V1_Contract props=C20
+// @ verify (*V1).Contract pre=pre_V1 post=post_V1_Contract props=C20
 func post_V1_Contract(l *V1, res0 uint32) bool { return res0 == l.User }
 
-//@ verify (*V1).Signature pre=pre_V1 post=post_V1_Signature props=C20
+// @ verify (*V1).Signature pre=pre_V1 post=post_V1_Signature props=C20
 func post_V1_Signature(l *V1, res0 uint32) bool { return res0 == l.Sign }
